@@ -19,6 +19,8 @@ import (
 	"flag"
 	"fmt"
 	"go/ast"
+	"go/format"
+	"go/parser"
 	"go/token"
 	"go/types"
 	"os"
@@ -36,7 +38,7 @@ type edit struct {
 }
 
 type stats struct {
-	R1, R2, R2Skipped, R3, R4, R5, R6, R6Skipped int
+	R1, R2, R2Skipped, R3, R4, R5, R6, R6Skipped, R7 int
 	Files                                        int
 	R2SkippedAt                                  []string
 	R6SkippedAt                                  []string
@@ -49,6 +51,7 @@ var (
 	modPath  string
 	noR2     bool
 	noR4     bool
+	noR7     bool
 	yieldPkg = map[string]bool{}
 )
 
@@ -62,6 +65,7 @@ func main() {
 	yield := flag.String("yield", "client,cache,server,database,database/inmemory,database/transaction,updates", "packages (relative) that get R4/R5 yields")
 	flag.BoolVar(&noR2, "no-r2", false, "skip the map iteration rewrite")
 	flag.BoolVar(&noR4, "no-r4", false, "skip soft yields")
+	flag.BoolVar(&noR7, "no-r7", false, "skip the select rewrite")
 	flag.Parse()
 	pats := flag.Args()
 	if len(pats) == 0 {
@@ -81,6 +85,27 @@ func main() {
 	}
 	for _, p := range strings.Split(*yield, ",") {
 		yieldPkg[modPath+"/"+strings.TrimSpace(p)] = true
+	}
+	// pass A (purely syntactic): make the choice among simultaneously ready
+	// cases of a select owned by the simulator (R7)
+	if !noR7 {
+		pre, err := packages.Load(&packages.Config{Mode: packages.NeedName | packages.NeedFiles, Dir: *dir}, pats...)
+		if err != nil {
+			fail("load (files): %v", err)
+		}
+		for _, p := range pre {
+			if strings.HasSuffix(p.PkgPath, "/simrt") {
+				continue
+			}
+			for _, name := range p.GoFiles {
+				if strings.HasSuffix(name, "_test.go") {
+					continue
+				}
+				if err := rewriteSelects(name); err != nil {
+					fail("%s: %v", name, err)
+				}
+			}
+		}
 	}
 	cfg := &packages.Config{
 		Mode: packages.NeedName | packages.NeedFiles | packages.NeedSyntax | packages.NeedTypes | packages.NeedTypesInfo | packages.NeedImports | packages.NeedCompiledGoFiles,
@@ -111,7 +136,7 @@ func main() {
 	}
 	out, _ := json.MarshalIndent(map[string]any{"stats": st, "sites": sites}, "", " ")
 	_ = os.WriteFile(filepath.Join(*dir, "simify.json"), out, 0o644)
-	fmt.Printf("simify: files=%d R1=%d R2=%d (skipped %d) R3=%d R4=%d R5=%d R6=%d (skipped %d)\n", st.Files, st.R1, st.R2, st.R2Skipped, st.R3, st.R4, st.R5, st.R6, st.R6Skipped)
+	fmt.Printf("simify: files=%d R1=%d R2=%d (skipped %d) R3=%d R4=%d R5=%d R6=%d (skipped %d) R7=%d\n", st.Files, st.R1, st.R2, st.R2Skipped, st.R3, st.R4, st.R5, st.R6, st.R6Skipped, st.R7)
 }
 
 func site(fset *token.FileSet, pos token.Pos) int {
@@ -410,9 +435,11 @@ func rewriteFile(fset *token.FileSet, p *packages.Package, f *ast.File, name str
 					usesSimrt = true
 				}
 			case *ast.CommClause:
-				add(off(x.Colon)+1, off(x.Colon)+1, fmt.Sprintf(" simrt.YieldHard(%d);", site(fset, x.Colon)), 3)
-				st.R5++
-				usesSimrt = true
+				if x.Comm != nil { // not for default: nothing was received there
+					add(off(x.Colon)+1, off(x.Colon)+1, fmt.Sprintf(" simrt.YieldHard(%d);", site(fset, x.Colon)), 3)
+					st.R5++
+					usesSimrt = true
+				}
 				hardAfter(x.Body)
 			case *ast.BlockStmt:
 				hardAfter(x.List)
@@ -439,6 +466,11 @@ func rewriteFile(fset *token.FileSet, p *packages.Package, f *ast.File, name str
 	})
 	candidates := map[string]bool{"sync": true, "net": true}
 	firstImportDone := false
+	for _, is := range f.Imports {
+		if strings.Trim(is.Path.Value, "\"") == modPath+"/simrt" {
+			firstImportDone = true // pass A already imported it
+		}
+	}
 	for _, d := range f.Decls {
 		gd, ok := d.(*ast.GenDecl)
 		if !ok || gd.Tok != token.IMPORT {
@@ -494,4 +526,129 @@ func rewriteFile(fset *token.FileSet, p *packages.Package, f *ast.File, name str
 	out = append(out, src[pos:]...)
 	st.Files++
 	return os.WriteFile(name, out, 0o644)
+}
+
+// rewriteSelects (R7): a select without default and with >= 2 cases is turned
+// into a chain of non-blocking attempts in a priority order chosen by the
+// simulator (source order or its reverse), followed by the original blocking
+// select. When several cases are ready at once Go picks one at random; after
+// the rewrite the pick is a pure function of (seed, goroutine, count).
+func rewriteSelects(name string) error {
+	src, err := os.ReadFile(name)
+	if err != nil {
+		return err
+	}
+	fset := token.NewFileSet()
+	f, err := parser.ParseFile(fset, name, src, parser.ParseComments)
+	if err != nil {
+		return err
+	}
+	tf := fset.File(f.Pos())
+	off := func(p token.Pos) int { return tf.Offset(p) }
+	type rep struct {
+		s, e int
+		text string
+	}
+	var reps []rep
+	// text of src[a:b] with the replacements collected so far that fall inside it applied
+	// (they are removed from the list: the caller's replacement subsumes them)
+	render := func(a, b int) string {
+		var in, rest []rep
+		for _, r := range reps {
+			if r.s >= a && r.e <= b {
+				in = append(in, r)
+			} else {
+				rest = append(rest, r)
+			}
+		}
+		reps = rest
+		sort.Slice(in, func(i, j int) bool { return in[i].s < in[j].s })
+		var out []byte
+		pos := a
+		for _, r := range in {
+			out = append(out, src[pos:r.s]...)
+			out = append(out, r.text...)
+			pos = r.e
+		}
+		out = append(out, src[pos:b]...)
+		return string(out)
+	}
+	var sels []*ast.SelectStmt
+	ast.Inspect(f, func(n ast.Node) bool {
+		if sel, ok := n.(*ast.SelectStmt); ok {
+			sels = append(sels, sel)
+		}
+		return true
+	})
+	// innermost first
+	sort.Slice(sels, func(i, j int) bool { return sels[i].End()-sels[i].Pos() < sels[j].End()-sels[j].Pos() })
+	for _, sel := range sels {
+		var clauses []*ast.CommClause
+		hasDefault := false
+		for _, c := range sel.Body.List {
+			cc := c.(*ast.CommClause)
+			if cc.Comm == nil {
+				hasDefault = true
+			}
+			clauses = append(clauses, cc)
+		}
+		if hasDefault || len(clauses) < 2 {
+			continue
+		}
+		type piece struct{ head, body string }
+		var ps []piece
+		for i, cc := range clauses {
+			end := off(sel.Body.Rbrace)
+			if i+1 < len(clauses) {
+				end = off(clauses[i+1].Pos())
+			}
+			ps = append(ps, piece{head: string(src[off(cc.Pos()) : off(cc.Colon)+1]), body: render(off(cc.Colon)+1, end)})
+		}
+		all := ""
+		for _, p := range ps {
+			all += p.head + p.body
+		}
+		chain := func(order []int) string {
+			out := "select {\n" + all + "}\n"
+			for k := len(order) - 1; k >= 0; k-- {
+				p := ps[order[k]]
+				out = "select {\n" + p.head + p.body + "default:\n" + out + "}\n"
+			}
+			return out
+		}
+		fwd := make([]int, len(ps))
+		rev := make([]int, len(ps))
+		for i := range ps {
+			fwd[i] = i
+			rev[i] = len(ps) - 1 - i
+		}
+		p := fset.Position(sel.Pos())
+		text := fmt.Sprintf("if simrt.SelectFlip(%q) {\n%s} else {\n%s}\n", fmt.Sprintf("%s:%d", strings.TrimSuffix(filepath.Base(p.Filename), ".go"), p.Line), chain(rev), chain(fwd))
+		reps = append(reps, rep{off(sel.Pos()), off(sel.End()), text})
+		st.R7++
+	}
+	if len(reps) == 0 {
+		return nil
+	}
+	sort.Slice(reps, func(i, j int) bool { return reps[i].s < reps[j].s })
+	var out []byte
+	pos := 0
+	for _, r := range reps {
+		out = append(out, src[pos:r.s]...)
+		out = append(out, r.text...)
+		pos = r.e
+	}
+	out = append(out, src[pos:]...)
+	// import simrt
+	imp := "\nimport simrt \"" + modPath + "/simrt\"\n"
+	idx := strings.Index(string(out), "\nimport ")
+	if idx < 0 {
+		return fmt.Errorf("no import block")
+	}
+	out = append(out[:idx], append([]byte(imp), out[idx:]...)...)
+	fm, err := format.Source(out)
+	if err != nil {
+		return fmt.Errorf("select rewrite does not parse: %v", err)
+	}
+	return os.WriteFile(name, fm, 0o644)
 }
